@@ -8,6 +8,8 @@ LOG (no windows, no "until" instants, no cached flags), and the blockers are rea
                             not accept yet — managed, no instance type, not initialized — is not a delivery)
 * the log starts afresh when both objects are gone (the node left the cluster)
 * Consolidatable          — every run of the nodeclaim.disruption controller is logged with what held at that instant
+                            (a run whose drift check failed counts like any other; a run that could not read the
+                            NodePool or whose status write was refused changes nothing)
 
 Shares only vocabulary (`Ev`, `Claim`, `Node`, `World`, …) with the model.
 -/
@@ -36,10 +38,11 @@ def accepted (n : Node) : Bool := n.md.pool == .none || n.md.it != .none || n.in
 def wholeSeconds (t : Int) : Int := t - t % 1000000000
 
 /-- the NodeClaim after the nodeclaim.disruption controller looked at it at instant `now`: it only touches the
-    Consolidatable condition, only for a live NodeClaim of an existing dynamic pool, and sets it exactly when the
-    specification allows it -/
-def afterController (pool : Pool) (c : Claim) (now : Int) : Claim :=
-  if c.deleting || c.md.pool != .this || !pool.present || pool.static then c
+    Consolidatable condition, only when it has its say (`controllerActs`: live NodeClaim of an existing, readable
+    dynamic pool, status write accepted), and then sets it exactly when the specification allows it — whatever else
+    failed in that run (the drift check) -/
+def afterController (faults : RFaults) (pool : Pool) (c : Claim) (now : Int) : Claim :=
+  if !controllerActs faults pool c then c
   else { c with consolidatable := if mayBeConsolidatable pool c now then .true_ else .absent }
 
 def specStep (pool : Pool) (l : Log) : Ev → Log
@@ -58,7 +61,7 @@ def specStep (pool : Pool) (l : Log) : Ev → Log
   | .unmark => if l.tracked then { l with marks := l.marks ++ [false] } else l
   | .nominate => if l.tracked then { l with noms := l.noms ++ [l.now] } else l
   | .podEvent => { l with claim := l.claim.map (fun c => { c with lastPodEvent := some (wholeSeconds l.now) }) }
-  | .reconcile => { l with claim := l.claim.map (fun c => afterController pool c l.now) }
+  | .reconcile f => { l with claim := l.claim.map (fun c => afterController f pool c l.now) }
 
 def specRun (pool : Pool) (l : Log) : List Ev → Log
   | [] => l
